@@ -81,7 +81,8 @@ func newRX(options plugintypes.OperatorOptions) (plugintypes.Operator, error) {
 		// Use binary regex matcher if expression matches non-utf8 bytes. The binary matcher does
 		// not match unicode, meaning we cannot support expressions with both unicode and non-utf8
 		// matches. This should not be commonly needed.
-		return newBinaryRX(options)
+		// with the same mode flags as the regular matcher (dot matches newline, ...)
+		return newBinaryRX(options, data)
 	}
 
 	// Compile regex + prefilter together so memoize caches all artifacts as one
@@ -186,9 +187,7 @@ type binaryRX struct {
 
 var _ plugintypes.Operator = (*binaryRX)(nil)
 
-func newBinaryRX(options plugintypes.OperatorOptions) (plugintypes.Operator, error) {
-	data := options.Arguments
-
+func newBinaryRX(options plugintypes.OperatorOptions, data string) (plugintypes.Operator, error) {
 	re, err := memoizeDo(options.Memoizer, "binaryrx:"+data, func() (any, error) { return binaryregexp.Compile(data) })
 	if err != nil {
 		return nil, err
